@@ -27,7 +27,9 @@ Record config := {
   no_conflicted : bool;        (* no name of [conflicted] may appear in a view at quiet (C03, C04) *)
   conflicted : list name;      (* interned names that contain ".conflicted" *)
   step_bound : nat;            (* C01: engine steps allowed between the last user op and quiet *)
-  cov_every_step : bool        (* C02 checked after every engine action, not only at quiet *)
+  cov_every_step : bool;       (* C02 checked after every engine action, not only at quiet *)
+  declined : list name         (* C12: interned names the application's translate function declines;
+                                  a path is declined when one of its components is in the list *)
 }.
 
 Record mstate := {
@@ -53,6 +55,7 @@ Definition G_BOUND : N := 11.       (* more engine steps than the bound without 
 Definition G_ECHO : N := 12.        (* provider write after quiet without a user op in between (C03) *)
 Definition G_SPEC_OP : N := 13.     (* check_spec run contains a user op that is not inside its root *)
 Definition G_STEP_TREE : N := 14.   (* a step/quiet marker whose trees differ from the previous ones *)
+Definition G_DECLINED : N := 15.    (* engine action addresses a path the translate function declines (C12) *)
 
 Definition tree_of (m : mstate) (s : side) : tree := if s then tR m else tL m.
 Definition root_of (cfg : config) (s : side) : path := if s then rootR cfg else rootL cfg.
@@ -103,6 +106,10 @@ Definition strip_conflicted (cfg : config) (t : tree) : tree :=
 
 Definition side_eqb (a b : side) : bool := Bool.eqb a b.
 
+(* a path with a component the application's translate function declines *)
+Definition has_declined (cfg : config) (p : path) : bool :=
+  existsb (fun n => existsb (N.eqb n) (declined cfg)) p.
+
 (* one observation: Inl = next state, Inr = code of the first guard that fails *)
 Definition mstep (cfg : config) (m : mstate) (x : obs) : mstate + N :=
   let nL := o_L x in
@@ -123,6 +130,7 @@ Definition mstep (cfg : config) (m : mstate) (x : obs) : mstate + N :=
   | EEng s targets =>
     let root := root_of cfg s in
     if negb (forallb (is_prefix root) targets) then inr G_CONFINED
+    else if existsb (has_declined cfg) targets then inr G_DECLINED
     else if negb (same_tree (outside (rootL cfg) (tL m)) (outside (rootL cfg) nL)
                   && same_tree (outside (rootR cfg) (tR m)) (outside (rootR cfg) nR)) then inr G_OUTSIDE
     else if negb (if s then same_tree (tL m) nL else same_tree (tR m) nR) then inr G_OTHER_SIDE
@@ -196,14 +204,21 @@ Fixpoint un_trace (pl pr : tree) (l : list sx) : option (list obs) :=
     end
   | _ :: _ => None
   end.
+(* the declined names are an optional ninth field (older producers send eight: nothing declined) *)
+Definition un_config_with (rl rr org cs nc cf : sx) (sb : N) (ce : sx) (dc : list name) : option config :=
+  match un_path rl, un_path rr, un_opt un_side org, un_bool cs, un_bool nc, un_list un_atom cf, un_bool ce with
+  | Some rl, Some rr, Some org, Some cs, Some nc, Some cf, Some ce =>
+    Some {| rootL := rl; rootR := rr; origin := org; check_spec := cs; no_conflicted := nc;
+            conflicted := cf; step_bound := N.to_nat sb; cov_every_step := ce; declined := dc |}
+  | _, _, _, _, _, _, _ => None
+  end.
 Definition un_config (x : sx) : option config :=
   match x with
-  | L [rl; rr; org; cs; nc; cf; A sb; ce] =>
-    match un_path rl, un_path rr, un_opt un_side org, un_bool cs, un_bool nc, un_list un_atom cf, un_bool ce with
-    | Some rl, Some rr, Some org, Some cs, Some nc, Some cf, Some ce =>
-      Some {| rootL := rl; rootR := rr; origin := org; check_spec := cs; no_conflicted := nc;
-              conflicted := cf; step_bound := N.to_nat sb; cov_every_step := ce |}
-    | _, _, _, _, _, _, _ => None
+  | L [rl; rr; org; cs; nc; cf; A sb; ce] => un_config_with rl rr org cs nc cf sb ce []
+  | L [rl; rr; org; cs; nc; cf; A sb; ce; dc] =>
+    match un_list un_atom dc with
+    | Some dc => un_config_with rl rr org cs nc cf sb ce dc
+    | None => None
     end
   | _ => None
   end.
